@@ -48,6 +48,15 @@ else:
     # that prints the b'' prefix so that Python2 can
     # print out Python3 code correctly
 
+class _CNull:
+    """What TYPE_NULL ('0') unmarshals to: the C NULL pointer that ends a dict."""
+
+    def __repr__(self):
+        return "<NULL>"
+
+
+C_NULL = _CNull()
+
 # Bit set on marshalType if we should
 # add obj to internObjects.
 # FLAG_REF is the marshal.c name
@@ -296,7 +305,8 @@ class _VersionIndependentUnmarshaller:
     # In C this NULL. Not sure what it should
     # translate here. Note NULL != None which is below
     def t_C_NULL(self, save_ref, bytes_for_s=False):
-        return None
+        # Not None: TYPE_NULL ends a dict, and None is a legitimate key or value.
+        return C_NULL
 
     def t_None(self, save_ref, bytes_for_s=False):
         return None
@@ -484,10 +494,10 @@ class _VersionIndependentUnmarshaller:
         # dictionary
         while True:
             key = self.r_object(bytes_for_s=bytes_for_s)
-            if key is None:
+            if key is C_NULL:
                 break
             val = self.r_object(bytes_for_s=bytes_for_s)
-            if val is None:
+            if val is C_NULL:
                 break
             ret[self.check_hash_cost(key)] = val
             pass
